@@ -126,7 +126,9 @@ std::string trackedToString(const runtime::RuntimeEvaluator& ev) {
     return s;
 }
 
-Outcome execute(const std::string& src, const gcs::Schedule& sched) {
+// warmUp: the parsed program is first executed once by another evaluator (collector never, no injection), as every shot
+// but the first of a multi-shot run is: anything an execution leaves behind in the tree is then in place
+Outcome execute(const std::string& src, const gcs::Schedule& sched, bool warmUp = false) {
     Outcome o;
     std::unique_ptr<compiler::Program> prog;
     try {
@@ -140,6 +142,21 @@ Outcome execute(const std::string& src, const gcs::Schedule& sched) {
         o.status = 9;
         o.message = e.what();
         return o;
+    }
+    if (warmUp) {
+        Outcome scratch;
+        g_cur = &scratch;
+        gcs::g_observer = &observer;
+        gcs::install();
+        CoutCapture quiet;
+        gcs::Schedule b;
+        b.baseline = true;
+        gcs::beginRun(b);
+        {
+            runtime::RuntimeEvaluator first;
+            try { first.execute(*prog); } catch (const std::exception&) {}
+        }
+        gcs::endRun();
     }
     g_cur = &o;
     gcs::g_observer = &observer;
@@ -236,6 +253,7 @@ struct Plan {
     classprog::Plan prog;
     gcs::Schedule sched;   // either generative or explicit
     std::string property;
+    bool secondExecution = false;   // both runs are the second execution of their parsed program (as shots 2..N of a multi-shot run are)
 };
 
 Json schedToJson(const gcs::Schedule& s) {
@@ -275,7 +293,7 @@ gcs::Schedule schedFromJson(const Json& j) {
 }
 Json planToJson(const Plan& p, bool withSource = true) {
     Json j = Json::object();
-    j.set("engine", "gcsim").set("program", classprog::toJson(p.prog)).set("schedule", schedToJson(p.sched));
+    j.set("engine", "gcsim").set("program", classprog::toJson(p.prog)).set("schedule", schedToJson(p.sched)).set("second_execution", p.secondExecution);
     if (withSource) j.set("source_text", classprog::render(p.prog));
     return j;
 }
@@ -283,6 +301,7 @@ Plan planFromJson(const Json& j) {
     Plan p;
     p.prog = classprog::fromJson(j.at("program"));
     p.sched = schedFromJson(j.at("schedule"));
+    p.secondExecution = j.has("second_execution") && j.at("second_execution").asBool();
     return p;
 }
 
@@ -305,9 +324,9 @@ struct Evaluation {
 Evaluation evaluate(const Plan& p, const std::string& property) {
     Evaluation e;
     std::string src = classprog::render(p.prog);
-    e.A = execute(src, baselineOf(p.sched));
+    e.A = execute(src, baselineOf(p.sched), p.secondExecution);
     if (e.A.status == 9) { e.rejected = true; e.v = {"", e.A.message}; return e; }
-    e.B = execute(src, p.sched);
+    e.B = execute(src, p.sched, p.secondExecution);
     if (property == "C12") {
         e.v = judgeC12(e.B);
         if (e.v.cls.empty()) e.v = judgeC12(e.A);
@@ -356,6 +375,7 @@ Plan generatePlan(uint64_t seed, uint64_t run, const std::string& property, bool
     static const int oneIn[] = {0, 1, 2, 3, 5, 8};
     s.preemptOneIn = oneIn[knob.below(6)];
     s.resumeOneIn = 1 + (int)knob.below(6);
+    p.secondExecution = knob.chance(0.12);
     return p;
 }
 
@@ -411,6 +431,7 @@ void runOne(const sim::Options& opt, uint64_t run, sim::RunReport& rep, bool all
     if (p.sched.injectErrorAtYield >= 0 && p.sched.injectKind == 1) rep.count("fault.non_bloch_exception_injected");
     if (B.status == 1) rep.count("end.runtime_error");
     if (B.status == 0) rep.count("end.normal");
+    if (p.secondExecution) rep.count("runs_as_second_execution_of_the_parsed_program");
     if (p.sched.jumpAtYield >= 0) rep.count("fault.clock_jump_configured");
     if (p.sched.stallYields > 0) rep.count("fault.stall_configured");
     for (auto& st : p.prog.main) rep.count(std::string("tpl.") + classprog::tplName(st.tpl));
